@@ -110,6 +110,24 @@ CLAIMED = {
             'solver-enumerated index expressions and cache histories (z3 '
             'all-SAT) executed on the real catalog classes, compared with '
             'the indexed values of an independently evaluated parent'),
+    'C09': ('3/C09',
+            'Solver-chosen histories on one instance vs. a fresh instance: '
+            'Background2D (every ordered selection of <=3 reads of 8 '
+            'attributes, symbolic filter_threshold so that every filtering '
+            'regime is a solver case, zoom/IDW interpolators, excluded '
+            'meshes); RadialProfile/CurveOfGrowth (all normalize/'
+            'unnormalize/read histories of length <=4); six aperture classes '
+            '(attribute assignments interleaved with reads of bbox/area/'
+            'shape/mask/edges, length <=3); PSFPhotometry / '
+            'IterativePSFPhotometry and the three star finders (call '
+            'histories of length 2 over finder/init_params/group_id/dataset '
+            'requests). Every read equals the fresh value and nothing '
+            'raises because of what came before.',
+            'histories are finite-domain solver variables; scenes concrete; '
+            'Ellipse and GriddedPSFModel histories are handled in C20/C13',
+            'solver-enumerated bounded histories (z3 all-SAT; symbolic real '
+            'filter_threshold forked by the real comparisons) executed on '
+            'the real classes and compared with fresh instances'),
 }
 
 NOT_YET = {}
